@@ -180,6 +180,49 @@ CLAIMS.update({
     },
 })
 
+# C02 / C07: sender-side theorems over the L0 sender model (Props/C02.lean, Props/C07.lean); the receiver half and the
+# composition over a faulty network stay at exploration level (the e2e claims above are kept verbatim inside the text)
+CLAIMS.update({
+    'C02': {
+        'text': 'SENDER SIDE (proof): Lean theorems over the L0 sender model, all configurations with MTU < 2^30, ALL operation lists from init (arbitrary earlier loss, '
+                'duplication and reordering of SACKs, zero-window episodes, congestion collapse, any number of T3 expiries), all oracle values: C02_t3_marks_all (T3 is total, has no '
+                'retry limit, and after any number of expiries every chunk that is neither acked nor abandoned is flagged), C02_rtx_progress_partial (the lowest flagged chunk opens the '
+                'first retransmission packet of a gather whatever cwnd/rwnd are when it is the earliest outstanding chunk, and whenever it fits min(cwnd, rwnd); the literal '
+                '"lowest flagged chunk, always" is false - C02_rtx_lowest_not_first_witness, replayed on the code from corpus/C02 - because the window exception is tied to loop index 0), '
+                'C02_probe_when_blocked (nothing in flight + something pending => a gather admits a chunk for every cwnd and rwnd; for every rwnd smaller than the chunk, 0 included, exactly '
+                'that chunk as the probe), C02_ack_progress (a validated SACK ahead of the cumulative point is accepted, pops k >= 1 chunks and their bytes; empty queues => zero buffered '
+                'bytes), C02_drains_fault_free and C02_recovers_after_blackout (from EVERY reachable established state the schedule "[T3;] rounds of gather + SACK acknowledging everything '
+                'in flight" empties both queues and all buffered amounts within pending chunks + 1 <= pending bytes + 1 rounds, for every window the SACKs advertise and every peek choice: '
+                'no reachable sender state is a dead end), C02_recovers_faithful (the same with a peer whose SACK is earned: each round = T3 expiry, gather, cumulative SACK for exactly the longest prefix '
+                'of the queue a peer that keeps nothing beyond its cumulative point can have - gap-acked before, skipped by this gather\'s FORWARD-TSN, or put on the wire by this gather; '
+                'in-flight + pending rounds suffice). NOT covered by theorems: timers really firing and goroutine wake-ups, the RECEIVER half (in the drain theorems the peer\'s SACK is '
+                'an input of the schedule), the composition over a network that eventually heals, the wall-clock bound. '
+                'SYSTEM LEVEL (exploration, synctest e2e): ' + CLAIMS['C02']['text'],
+        'note': SENDER_NOTE + ' Premises of the drain theorems: fragment size <= maxPayloadSizeForMTU (CfgFit), peek returns a chunk of a non-empty queue (PickOk), fewer than 2^31 chunks queued. '
+                'The round bound is the worst case one chunk per round (cwnd at its floor or closed peer window); it does not use cwnd growth. ' + E2E_NOTE,
+        'technique': 'Lean 4 proof (run invariants Seq/Core/PendFit, progress lemmas, induction on the number of pending chunks) + model/implementation differential replay of a direct-driven real '
+                     'Association + seeded e2e exploration with Lean-defined predicates for the system-level statement',
+    },
+    'C07': {
+        'text': 'SENDER SIDE (proof) - what the peer is told to skip: Lean theorems over the L0 sender model (now including the contents of FORWARD-TSN / I-FORWARD-TSN, compared with the chunk '
+                'every real gather emits), all configurations with MTU < 2^30 and partial reliability negotiated, ALL operation lists, all oracle values, premise TsnOk (< 2^31 TSNs outstanding '
+                'in every state): C07_skip_only_abandoned (the advanced peer ack point lies inside the in-flight queue and every chunk in (cumAck, advPeerAck] is abandoned - never a merely '
+                'gap-acked or a reliable chunk), C07_skip_maximal (after an accepted SACK and after T3 the chunk right after the point is not abandoned), C07_forward_flag (point ahead of the '
+                'cumulative point => flag up after SACK and after every T3; a gather emits the chunk exactly when flag and point say so, with that point and the lists of the state it leaves), '
+                'C07_forward_lists_exact (one entry per stream; each entry is the SSN/MID of an abandoned ORDERED chunk in the range - unordered ones are not listed in FORWARD-TSN; it is the '
+                'greatest one when fewer than 2^15 SSNs / 2^31 MIDs of the stream are skipped at once), C07_abandonment_monotone (no premise), C07_reliable_never_abandoned (DCEP chunks and chunks '
+                'of a stream that is never given a partially reliable policy belong to no abandoned message, whatever happens to other messages), C07_abandoned_not_retransmitted (T3 and '
+                'RACK/PTO marks never flag, the fast-retransmit gather and the T3 retransmission gather never send an abandoned chunk) with C07_d21_regression (finding D21, found by this '
+                'theorem: getDataPacketsToRetransmit did not test abandoned(); fixed in /repo, the model mirrors the fix, the witness is replayed from corpus/C06 and corpus/C07). '
+                'NOT covered by theorems: the RECEIVER half (handleForwardTSN / forwardTSNFor*: nothing that was not abandoned is purged, later messages are delivered, partially received and '
+                'first-on-stream cases) and the composition of both halves. '
+                'SYSTEM LEVEL (exploration, synctest e2e): ' + CLAIMS['C07']['text'],
+        'note': SENDER_NOTE + ' The FORWARD-TSN comparison is on the decoded chunk (new cumulative TSN, stream list sorted by stream id). ' + E2E_NOTE,
+        'technique': 'Lean 4 proof (invariant AdvInv over op lists, serial arithmetic by bv_omega, fold lemmas for the stream lists) + model/implementation differential replay of a direct-driven '
+                     'real Association + seeded e2e exploration with Lean-defined predicates for the system-level statement',
+    },
+})
+
 _PENDING = 'check not built yet in this round (planned, see DESIGN.md §5/§8); not claimed until its theorems and correspondence run'
 NOT_APPLICABLE = {p: _PENDING for p in ['C%02d' % i for i in range(1, 21)] if p not in CLAIMS}
 
